@@ -371,6 +371,10 @@ def run(ck):
     for i in badb[:3]:
         ck.violation("batch/framing/model-disagrees", "batch framing model and the real serializer disagree",
                      {"case": bcases[i][:2000], "correspondence": "batch_case_ok"}, found_input=False)
+    dflt = sorted(k[len("defaulted:"):] for k in ck.hist if k.startswith("defaulted:"))
+    if dflt:
+        ck.notes.append("not violations (absent == default): falsy attribute values that come back as None after the round trip "
+                        "because marshal() writes the option only `if self.x`: " + ", ".join(dflt))
     if broken:
         ck.log(f"broken obligations: {broken}")
         report_broken_obligations(ck, broken)
